@@ -106,17 +106,17 @@ def step (w : W) (ws : List String) : String × W :=
   | ["reset"] => ("", W.initG w.geo w.strOverhead)
   | ["geo", a, b, c, so] => ("", W.initG ⟨a.toNat!, b.toNat!, c.toNat!, 16, 16⟩ so.toNat!)
   | ["root", r, d] => ("", { w with refs := w.refs.set! r.toNat! ⟨some d.toNat!, some .root⟩ })
-  | ["mem", r, r2, k] =>
+  | "mem" :: r :: r2 :: k :: _kk =>          -- optional 4th field: source kind of the key (irrelevant to a lookup)
     let s := w.refs[r2.toNat!]!
     let res : Ref := match s.doc, s.loc with
       | some di, some l => ⟨some di, ((w.docs[di]!).findKey l (unhex k)).map (fun p => Loc.slot p.2)⟩
       | di, _ => ⟨di, none⟩
     ("", { w with refs := w.refs.set! r.toNat! res })
-  | ["memw", r, r2, k] =>
+  | "memw" :: r :: r2 :: k :: kk =>          -- optional 4th field: source kind of the key; "sjl" = linked (stored by address)
     let s := w.refs[r2.toNat!]!
     match s.doc, s.loc with
     | some di, some l =>
-      let (m, d) := (w.docs[di]!).getOrAddMember l (unhex k) false
+      let (m, d) := (w.docs[di]!).getOrAddMember l (unhex k) (kk == ["sjl"])
       match m with
       | some id => ("", { w with docs := w.docs.set! di (d.clearV (.slot id)), refs := w.refs.set! r.toNat! ⟨some di, some (.slot id)⟩ })
       | none => ("", { w with docs := w.docs.set! di d, refs := w.refs.set! r.toNat! ⟨some di, none⟩ })
@@ -145,11 +145,11 @@ def step (w : W) (ws : List String) : String × W :=
     match s.doc, s.loc with
     | some di, some l => let (ok, w) := w.setAt di l kind arg; ((if ok then "1" else "0"), w)
     | _, _ => ((if w.unboundResult s kind then "1" else "0"), w)
-  | ["setm", r, key, kind, arg] =>
+  | "setm" :: r :: key :: kind :: arg :: kk =>
     let s := w.refs[r.toNat!]!
     match s.doc, s.loc with
     | some di, some l =>
-      let (m, d) := (w.docs[di]!).getOrAddMember l (unhex key) false
+      let (m, d) := (w.docs[di]!).getOrAddMember l (unhex key) (kk == ["sjl"])
       let w := { w with docs := w.docs.set! di d }
       match m with
       | some id => let (ok, w) := w.setAt di (.slot id) kind arg; ((if ok then "1" else "0"), w)
